@@ -110,7 +110,7 @@ fn name_of(n: Name) -> String {
     }
 }
 
-fn symbolic_names() -> (Name, Name) {
+fn names() -> (Name, Name) {
     (Name::Registered, Name::Other)
 }
 
@@ -156,7 +156,7 @@ fn mk_chain() -> Arc<ChainDescriptor> {
 #[kani::stub(crate::descriptor::DescriptorManager::set, stub_set)]
 #[kani::stub(crate::descriptor::DescriptorManager::get, stub_get)]
 fn k4_unary() {
-    let (n, o) = symbolic_names();
+    let (n, o) = names();
     let mut m = DescriptorManager::new();
     let decoy = mk_binary();
     m.set_binary_descriptor(name_of(n), decoy.clone());
@@ -179,7 +179,7 @@ fn k4_unary() {
 #[kani::stub(crate::descriptor::DescriptorManager::set, stub_set)]
 #[kani::stub(crate::descriptor::DescriptorManager::get, stub_get)]
 fn k4_binary() {
-    let (n, o) = symbolic_names();
+    let (n, o) = names();
     let mut m = DescriptorManager::new();
     let decoy = mk_unary();
     m.set_unary_descriptor(name_of(n), decoy.clone());
@@ -202,7 +202,7 @@ fn k4_binary() {
 #[kani::stub(crate::descriptor::DescriptorManager::set, stub_set)]
 #[kani::stub(crate::descriptor::DescriptorManager::get, stub_get)]
 fn k4_postfix() {
-    let (n, o) = symbolic_names();
+    let (n, o) = names();
     let mut m = DescriptorManager::new();
     let decoy = mk_unary();
     m.set_unary_descriptor(name_of(n), decoy.clone());
@@ -225,7 +225,7 @@ fn k4_postfix() {
 #[kani::stub(crate::descriptor::DescriptorManager::set, stub_set)]
 #[kani::stub(crate::descriptor::DescriptorManager::get, stub_get)]
 fn k4_function() {
-    let (n, o) = symbolic_names();
+    let (n, o) = names();
     let mut m = DescriptorManager::new();
     let decoy = mk_reference();
     m.set_reference_descriptor(name_of(n), decoy.clone());
@@ -248,7 +248,7 @@ fn k4_function() {
 #[kani::stub(crate::descriptor::DescriptorManager::set, stub_set)]
 #[kani::stub(crate::descriptor::DescriptorManager::get, stub_get)]
 fn k4_reference() {
-    let (n, o) = symbolic_names();
+    let (n, o) = names();
     let mut m = DescriptorManager::new();
     let decoy = mk_function();
     m.set_function_descriptor(name_of(n), decoy.clone());
